@@ -110,13 +110,21 @@ pub(crate) struct TxInner<'tx> {
 
 impl<'tx> Tx<'tx> {
     pub(crate) fn new(db: &'tx DB, writable: bool) -> Result<Tx<'tx>> {
+        #[cfg(feature = "verif-hooks")]
+        crate::verif::point("begin.enter", writable as u64);
         let lock = match writable {
             true => TxLock::Rw(db.inner.file.lock()?),
             false => TxLock::Ro(db.inner.mmap_lock.read()?),
         };
+        #[cfg(feature = "verif-hooks")]
+        crate::verif::point("begin.locked", writable as u64);
         let mut freelist = db.inner.freelist.lock()?.clone();
+        #[cfg(feature = "verif-hooks")]
+        crate::verif::point("begin.freelist_cloned", writable as u64);
         let mut meta = db.inner.meta()?;
         debug_assert!(meta.valid());
+        #[cfg(feature = "verif-hooks")]
+        crate::verif::point("begin.meta_read", meta.tx_id);
         {
             let mut open_ro_txs = db.inner.open_ro_txs.lock().unwrap();
             if writable {
@@ -131,6 +139,8 @@ impl<'tx> Tx<'tx> {
                 open_ro_txs.sort_unstable();
             }
         }
+        #[cfg(feature = "verif-hooks")]
+        crate::verif::point("begin.registered", meta.tx_id);
         let freelist = Rc::new(RefCell::new(TxFreelist::new(meta.clone(), freelist)));
 
         let data = db.inner.data.lock()?.clone();
@@ -260,6 +270,8 @@ impl<'tx> Tx<'tx> {
         if !self.writable() {
             return Err(Error::ReadOnlyTx);
         }
+        #[cfg(feature = "verif-hooks")]
+        crate::verif::point("commit.enter", 0);
         let mut tx = self.inner.borrow_mut();
         let freelist = tx.freelist.clone();
         let mut freelist = freelist.borrow_mut();
@@ -306,6 +318,8 @@ impl<'tx> TxInner<'tx> {
                 self.pages = Pages::new(data, self.db.inner.pagesize);
             }
 
+            #[cfg(feature = "verif-hooks")]
+            crate::verif::point("commit.before_data", self.meta.tx_id);
             // write the data to the file
             {
                 // freelist.pages is a BTreeMap so we're writing the pages in order to minmize
@@ -321,6 +335,8 @@ impl<'tx> TxInner<'tx> {
             self.check()?;
         }
         if let TxLock::Rw(file) = &mut self.lock {
+            #[cfg(feature = "verif-hooks")]
+            crate::verif::point("commit.before_meta", self.meta.tx_id);
             // write meta page to file
             {
                 let mut buf = vec![0; self.db.inner.pagesize as usize];
@@ -345,11 +361,17 @@ impl<'tx> TxInner<'tx> {
                 file.write_all(buf.as_slice())?;
             }
 
+            #[cfg(feature = "verif-hooks")]
+            crate::verif::point("commit.before_sync", self.meta.tx_id);
             file.flush()?;
             file.sync_all()?;
 
+            #[cfg(feature = "verif-hooks")]
+            crate::verif::point("commit.before_publish", self.meta.tx_id);
             let mut lock = self.db.inner.freelist.lock()?;
             *lock = freelist.inner.clone();
+            #[cfg(feature = "verif-hooks")]
+            crate::verif::point("commit.after_publish", self.meta.tx_id);
             Ok(())
         } else {
             unreachable!()
@@ -476,6 +498,8 @@ impl<'tx> TxInner<'tx> {
 
 impl<'tx> Drop for TxInner<'tx> {
     fn drop(&mut self) {
+        #[cfg(feature = "verif-hooks")]
+        crate::verif::point("drop.enter", self.lock.writable() as u64);
         if !self.lock.writable() {
             let mut open_txs = self.db.inner.open_ro_txs.lock().unwrap();
             let index = match open_txs.binary_search(&self.meta.tx_id) {
